@@ -289,7 +289,7 @@ func (c *Ctx) nameValue(s *State, name string, v Value) Value {
 		o := c.nameValue(s, name+"#off", IntV{x.Off}).(IntV).T
 		l := c.nameValue(s, name+"#len", IntV{x.Len}).(IntV).T
 		cp := c.nameValue(s, name+"#cap", IntV{x.Cap}).(IntV).T
-		return SliceV{r, o, l, cp, false}
+		return SliceV{r, o, l, cp, x.Tail}
 	}
 	return v
 }
